@@ -18,7 +18,8 @@ void vp_spawn(void (*fn)(void *), void *arg);
 void vp_atomic_begin(void);
 void vp_atomic_end(void);
 void vp_shared(const void *p, size_t n); // declare object shared for race instrumentation
-void vp_point(const char *name);        // scheduling point (RKCOMMON_VERIF hooks)
+void vp_point(const char *name);
+void vp_nothrow(bool on);               // while on: any C++ exception thrown is an assertion failure (and the path ends)        // scheduling point (RKCOMMON_VERIF hooks)
 }
 static inline int vp_nondet_int() { return (int)vp_nondet_u32(); }
 static inline bool vp_nondet_bool() { return vp_nondet_u8() & 1; }
